@@ -11,14 +11,17 @@ RULE = ("binaries: the 'symbols' seed (versioned, aliased, weak, TLS, common sym
         "field := one of {0, 1, cur+1, cur-1, max, max/2, file size, file size-1, number of sections, ...}; st_info/st_shndx/version indices from their own boundary lists; DWARF bytes := {0, 0xff, cur+1, cur^0x80, 0x7f} at every offset "
         "(every 5th offset in quick). Each mutant is read by abidw, abidw --load-all-types, abidiff (mutant, original), abisym for a present and for an absent symbol name. Oracle: the process ends by exit - no signal, no assertion abort, "
         "no sanitizer report, no time-out; crashes whose innermost non-runtime frame is in elfutils are tallied as third-party. Non-trivial: every mutant.")
-TEXT = "Deviation bound 1 (one corrupted field or byte) completed for the catalogue on each binary."
-NOTE = ("The quick tier uses the plain build (signals, aborts and hangs are seen, silent out-of-bounds reads are not); the thorough tier repeats it on the ASan+UBSan build. Pairs of corruptions are not explored.")
+TEXT = ("Deviation bound 1 (one corrupted field or byte): quick = the catalogue on 2 binaries on the plain build; thorough = the full catalogue on 5 binaries on the plain build (aborts, signals, hangs), "
+        "then ASan+UBSan on the full catalogue of the main binary and on every second DWARF byte / the symbol-lookup subset of the others.")
+NOTE = ("The plain build sees signals, aborts and hangs but not silent out-of-bounds reads; those are only covered by the ASan+UBSan stage of the thorough tier. Pairs of corruptions are not explored.")
 ASSUMPTIONS = ["single-field corruptions of compiler-produced binaries are representative of malformed ELF input"]
 _bins = {}
 _cat = {}
 
 
-def _v(ctx):
+def _v(ctx, e=None):
+    if e is not None and e.get("variant"):
+        return e["variant"]
     return "plain" if ctx.quick else "asan"
 
 
@@ -39,8 +42,11 @@ def _make(ctx):
 
 
 def prepare(ctx):
-    toolrun.tool(_v(ctx), "abidw")
-    toolrun.tool(_v(ctx), "abisym")
+    toolrun.tool("plain", "abidw")
+    toolrun.tool("plain", "abisym")
+    if not ctx.quick:
+        toolrun.tool("asan", "abidw")
+        toolrun.tool("asan", "abisym")
     for n, p in _make(ctx).items():
         _bins[n] = (p, open(p, "rb").read())
 
@@ -55,12 +61,33 @@ def _muts(ctx, b):
     return _cat[b]
 
 
+def _asan_subset(b, muts):
+    """Indices of the catalogue that the (5x slower) ASan+UBSan pass of the thorough tier repeats."""
+    out = []
+    k = 0
+    for i, m in enumerate(muts):
+        if m[0].startswith("dwarf-byte"):
+            k += 1
+            if b != "symbols-so" and k % 2:
+                continue
+        elif b in ("symbols-sysv-so", "symbols-dw4-so") and not (m[0].startswith(("sysv-hash", "sym-dynsym", "versym", "verdef", "verneed")) or m[0].endswith(("-hash", "-symtab", "-version"))):
+            continue
+        out.append(i)
+    return out
+
+
 def stages(ctx):
     el = []
     for b in _bins:
         n = len(_muts(ctx, b))
-        el += [{"kind": "range", "bin": b, "lo": i, "hi": min(i + 60, n)} for i in range(0, n, 60)]
-    return [("single-field-corruptions", el)]
+        el += [{"kind": "range", "bin": b, "lo": i, "hi": min(i + 60, n), "variant": "plain"} for i in range(0, n, 60)]
+    if ctx.quick:
+        return [("single-field-corruptions", el)]
+    el2 = []
+    for b in _bins:
+        idx = _asan_subset(b, _muts(ctx, b))
+        el2 += [{"kind": "list", "bin": b, "idx": idx[i:i + 40], "variant": "asan"} for i in range(0, len(idx), 40)]
+    return [("single-field-corruptions(plain-build,full-catalogue)", el), ("single-field-corruptions(asan+ubsan,reduced-dwarf-stride)", el2)]
 
 
 def _run_all(ctx, e, u, op, site, fails, outs):
@@ -69,7 +96,7 @@ def _run_all(ctx, e, u, op, site, fails, outs):
     up = os.path.join(d, "m.bin")
     with open(up, "wb") as f:
         f.write(u)
-    v = _v(ctx)
+    v = _v(ctx, e)
     runs = [("abidw", [up]), ("abidw", ["--load-all-types", up]), ("abidiff", [up, full]), ("abisym", [up, "vfn"]), ("abisym", [up, "no_such_symbol"])]
     if e["bin"] == "symbols-sysv-so" and ctx.quick:
         runs = runs[3:] + [("abisym", [up, "base_fn"])]
@@ -92,7 +119,7 @@ def _run_all(ctx, e, u, op, site, fails, outs):
             continue
         fails.append({"sig": "C34 %s %s %s %s" % (tool, outcome, where, op),
                       "what": "%s %s: %s in %s on mutant '%s' (%s) of %s: %s" % (tool, " ".join(args[:-1] if tool != "abisym" else args[1:]), outcome, where, op, site, e["bin"], err.decode(errors="replace")[-300:].replace("\n", " | ")),
-                      "element": {"kind": "one", "bin": e["bin"], "op": op, "site": site}})
+                      "element": {"kind": "one", "bin": e["bin"], "op": op, "site": site, "variant": v}})
     try:
         os.unlink(up)
     except OSError:
@@ -106,6 +133,11 @@ def evaluate(ctx, e):
     muts = _muts(ctx, e["bin"])
     if e["kind"] == "range":
         for op, site, u in muts[e["lo"]:e["hi"]]:
+            n += _run_all(ctx, e, u, op, site, fails, outs)
+            nt += 1
+    elif e["kind"] == "list":
+        for i in e["idx"]:
+            op, site, u = muts[i]
             n += _run_all(ctx, e, u, op, site, fails, outs)
             nt += 1
     else:
